@@ -1,11 +1,11 @@
 package rules
 
 import (
-	"slipcheck/lenflow"
 	"fmt"
 	"go/ast"
 	"go/token"
 	"go/types"
+	"slipcheck/lenflow"
 	"sort"
 	"strings"
 
